@@ -181,7 +181,20 @@ var noPanicClause = map[string]bool{"C03": true, "C06": true, "C07": true, "C09"
 // step budget is a violation rather than an unjudged run.
 var boundedProgress = map[string]bool{"C05": true, "C08": true, "C20": true}
 
+// panicFuncs: a property without a general no-panic clause can still promise
+// "exactly once" for one mechanism; a double completion there shows only as a
+// panic (send on a closed channel), so a panic inside that mechanism is its
+// violation.
+var panicFuncs = map[string][]string{
+	"C09": {".waitCallback(", ".pushReq(", ".Callback(", ".filterBatchLocked(", "(*Response).wait("},
+}
+
 func panicConcerns(prop, stack string) bool {
+	for _, f := range panicFuncs[prop] {
+		if strings.Contains(stack, f) {
+			return true
+		}
+	}
 	if noPanicClause[prop] {
 		return false
 	}
